@@ -228,7 +228,7 @@ def _dir_or_angle(draw, B, s, ref, pid):
 
 @st.composite
 def determined_network(draw, noise=1, dims=None, free=False, allow_cov=True, all_axes=True,
-                       n_max=8, omit=True, heights_dh=True, isotropic=False, only_recipe=None, stretch=True):
+                       n_max=8, omit=True, heights_dh=True, isotropic=False, only_recipe=None, stretch=True, box=None):
     """A geometrically determined network built by recipes.
     noise: 0 exact observations, 1 errors of about one sigma.
     free: no fixed coordinates - the datum is carried by constrained points (C08)."""
@@ -239,7 +239,7 @@ def determined_network(draw, noise=1, dims=None, free=False, allow_cov=True, all
     nnew = draw(st.integers(1, max(1, n_max - nfix)))
     n = nfix + nnew
     offset = draw(st.sampled_from([(0.0, 0.0), (0.0, 0.0), (7.0e5, 1.0e6), (-4.5e5, 5.2e6)]))
-    pts = draw(points(n, offset=offset))
+    pts = draw(points(n, box=box, offset=offset))
     B = _Builder(draw, noise, dims)
     P = []
     has_xy = dims in ("2d", "3d")
@@ -331,7 +331,7 @@ def determined_network(draw, noise=1, dims=None, free=False, allow_cov=True, all
                 B.add(s, "direction", to=pid)
                 kw = {}
                 if draw(st.integers(0, 2)) == 0:
-                    kw = {"from_dh": draw(st.integers(1000, 1900)) / 1000.0, "to_dh": draw(st.integers(0, 2500)) / 1000.0}
+                    kw = {"from_dh": draw(st.integers(1000, 1900)) / 1000.0, "to_dh": draw(st.integers(-600, 2500)) / 1000.0}   # a target may hang below its mark
                 B.add(s, "z-angle", to=pid, **kw)
                 B.add(s, "s-distance", to=pid, **kw)
         if has_z:
@@ -352,7 +352,7 @@ def determined_network(draw, noise=1, dims=None, free=False, allow_cov=True, all
                     s = xy_station if (xy_station is not None and draw(st.booleans())) else draw(st.sampled_from(known))
                     kw = {}
                     if draw(st.booleans()):
-                        kw = {"from_dh": draw(st.integers(1000, 1900)) / 1000.0, "to_dh": draw(st.integers(0, 2500)) / 1000.0}
+                        kw = {"from_dh": draw(st.integers(1000, 1900)) / 1000.0, "to_dh": draw(st.integers(-600, 2500)) / 1000.0}   # a target may hang below its mark
                     B.add(s, "z-angle", to=pid, **kw)
                     if draw(st.booleans()):
                         B.add(s, "s-distance", to=pid, **kw)
